@@ -16,7 +16,7 @@ def jobs(rng, thorough):
 
 
 def run(ctx: core.Ctx):
-    ctx.lean_stage()
+    ctx.lean_stage(extra_props=("Tie",))
     b2check.run_b2(ctx, jobs, ["C13"], label="keep-alive scenarios")
     ctx.info["rule"] = ("probes, user MODELNAME queries racing them, other commands, unsolicited device lines, reply latencies 0..1.2 s, first probe swallowed or not; each under a seeded schedule with extra line-level preemptions; a case = one schedule; "
                         "non-trivial = distinct (spec, seed)")
